@@ -111,7 +111,7 @@ def check(ctx):
     ok = len(sets_t) == 1 and len(pop) == 1 and dominates(mt, pop[0][0], sets_t[0][0]) and getattr(pop[0][0], '_parent', None) is getattr(sets_t[0][0], '_parent', 0)
     ctx.ob("TYPESTATE.backtrack.set", mt, "restore_state_flag = True exactly when a saved state is popped", ok)
     var_take = find("matches = matches + (S.term,)", mt)
-    ok = len(sets_f) == 1 and len(var_take) == 1 and control_equivalent(mt, sets_f[0], var_take[0][0]) and any(eqv(n_.test, "n") and sets_f[0] in n_.body and "N.edges.get(VAR, None)" in unparse(mt) for n_ in walk_no_nested(mt) if isinstance(n_, ast.If))
+    ok = len(sets_f) == 1 and len(var_take) == 1 and control_equivalent(mt, sets_f[0], var_take[0][0]) and any((eqv(n_.test, "n") or eqv(n_.test, "n and S.current is not END")) and sets_f[0] in n_.body and "N.edges.get(VAR, None)" in unparse(mt) for n_ in walk_no_nested(mt) if isinstance(n_, ast.If))
     ctx.ob("TYPESTATE.backtrack.reset", mt, "the flag is cleared when (and only when) a VAR edge is taken", ok, "" if ok else "the flag is cleared elsewhere: after one backtrack constant edges keep being skipped (or are retried), so overlapping rules are missed")
     const_take = [n_ for n_ in ast.walk(mt) if isinstance(n_, ast.If) and eqv(n_.test, "n and (not restore_state_flag)")]
     ok = len(const_take) == 1 and bool(find("stack.append((S.copy(), N, matches))", const_take[0])) and not find("restore_state_flag = M_v", const_take[0])
